@@ -91,7 +91,7 @@ def check(rec, kind, idx, rng, tier):
         d = _eqnan(got, expected, rtol)
         if len(np.unique(expected[~np.isnan(expected)])) >= 2:
             rec.nontriv(fname, H, W, tuple(sorted(pay['layouts'].items())), stack.tobytes(), repr(kw.get('func')), repr(kw.get('ref_var')))
-        if idx == 0:
+        if len(rec.samples) < 1:
             rec.sample(pay)
         if d is not None:
             # classifier for the memory-order defect: the same call on C-contiguous copies is right
